@@ -1,6 +1,7 @@
 import OmplModel.Model.PlannerProto
 import OmplModel.Model.PlannerProtoPrm
 import OmplModel.Model.PlannerProtoInterm
+import OmplModel.Model.PlannerProtoConnect
 import OmplModel.Driver.Common
 /-! Line-protocol driver for the planner protocol machine with the RRT-like core (`proto core=rrt`).
 
@@ -28,6 +29,8 @@ propagation step size: `PathControl::length()` is the sum of the control duratio
 inductive St where
   | tree (ctl : Bool) (dt : Float) (m : Mach)
   | prm (p : Prm.Prm)
+  /-- geometric::RRTConnect (two trees) -/
+  | bi (m : M S Float (BiTree S))
   /-- geometric RRT with the goal test computed by the model (`goal` op: goal state and threshold of the current problem
   definition); `interm`: the intermediate-states core, `lvs` = `longestValidSegment_` of the state space -/
   | geo (interm : Bool) (lvs : Float) (goal : Option (S × Float)) (m : Mach)
@@ -55,6 +58,7 @@ def init (ts : List String) : Option St :=
   match ts with
   | ["proto", "core=prm"] => some (.prm {})
   | ["proto", "core=rrt"] => some (.tree false 0.0 (M.init (rrtCore : CoreSpec S Float (Draw S Float) (Tree S))))
+  | ["proto", "core=rrtc"] => some (.bi (M.init (rrtConnectCore : CoreSpec S Float (BDraw S Float) (BiTree S))))
   | ["proto", "core=rrtg"] => some (.geo false 0.0 none (M.init (rrtCore : CoreSpec S Float (Draw S Float) (Tree S))))
   | ["proto", "core=rrti", lvs] =>
     match parseFloatBits? lvs with
@@ -187,11 +191,59 @@ def pCDraws? : Nat → List String → Option (List (CDraw S Float) × List Stri
     let (ds, r') ← pCDraws? n r
     pure (d :: ds, r')
 
-def newEvents (before after : Mach) : List Ev := after.log.drop before.log.length
+/-- one `growTree` outcome: `T` (TRAPPED) or `A <near> <reached> <dim> <bits>*dim` -/
+def pGrow? (ts : List String) : Option (Grow S × List String) :=
+  match ts with
+  | "T" :: rest => some (.trapped, rest)
+  | "A" :: near :: reached :: rest =>
+    match parseNat? near, takeCounted rest with
+    | some near, some (xs, rest') =>
+      match xs.mapM parseFloatBits? with
+      | some st => if reached = "0" || reached = "1" then some (.added near st (reached = "1"), rest') else none
+      | none => none
+    | _, _ => none
+  | _ => none
 
-def stepG {D : Type} (cs : CoreSpec S Float D (Tree S)) (params : Params S Float) (pDs : Nat → List String → Option (List D × List String))
-    (m : Mach) (ts : List String) : Mach × String :=
-  let fin (op : Op S D) (name : String) (extra : String) : Mach × String :=
+def pGrows? : Nat → List String → Option (List (Grow S) × List String)
+  | 0, ts => some ([], ts)
+  | n + 1, ts => do
+    let (d, r) ← pGrow? ts
+    let (ds, r') ← pGrows? n r
+    pure (d :: ds, r')
+
+/-- `(0 | 1 <dim> <bits>*dim) <grow> <nconnect> <grow>*nconnect <pairValid> <distbits>` -/
+def pBDraw? (ts : List String) : Option (BDraw S Float × List String) := do
+  let (goal, r0) ← match ts with
+    | "0" :: rest => some (none, rest)
+    | "1" :: rest =>
+      match takeCounted rest with
+      | some (xs, rest') => (xs.mapM parseFloatBits?).map fun g => (some g, rest')
+      | none => none
+    | _ => none
+  let (first, r1) ← pGrow? r0
+  match r1 with
+  | n :: r2 =>
+    let n ← parseNat? n
+    let (cn, r3) ← pGrows? n r2
+    match r3 with
+    | pv :: dist :: r4 =>
+      let dist ← parseFloatBits? dist
+      if pv = "0" || pv = "1" then some (⟨goal, first, cn, pv = "1", dist⟩, r4) else none
+    | _ => none
+  | [] => none
+
+def pBDraws? : Nat → List String → Option (List (BDraw S Float) × List String)
+  | 0, ts => some ([], ts)
+  | n + 1, ts => do
+    let (d, r) ← pBDraw? ts
+    let (ds, r') ← pBDraws? n r
+    pure (d :: ds, r')
+
+def newEvents {C : Type} (before after : M S Float C) : List Ev := after.log.drop before.log.length
+
+def stepG {D C : Type} (cs : CoreSpec S Float D C) (params : Params S Float) (pDs : Nat → List String → Option (List D × List String))
+    (m : M S Float C) (ts : List String) : M S Float C × String :=
+  let fin (op : Op S D) (name : String) (extra : String) : M S Float C × String :=
     let m' := OmplModel.PlannerProto.step cs params m op
     (m', name ++ extra ++ " log=" ++ showLog (newEvents m m'))
   match ts with
@@ -300,6 +352,14 @@ def step (st : St) (ts : List String) : St × String :=
   | .tree false dt m =>
     let (m', out) := stepG (rrtCore : CoreSpec S Float (Draw S Float) (Tree S)) params pDraws? m ts
     (.tree false dt m', out)
+  | .bi m =>
+    match ts with
+    | ["turn", b] =>
+      -- `startTree_` as the real planner has it (RRTConnect::clear() does not reset it: F333)
+      if b = "0" || b = "1" then (.bi { m with core := { m.core with turn := b = "1" } }, "turn") else (st, "bad-op")
+    | _ =>
+      let (m', out) := stepG (rrtConnectCore : CoreSpec S Float (BDraw S Float) (BiTree S)) params pBDraws? m ts
+      (.bi m', out ++ (if ts.head? = some "solve" || ts.head? = some "getpd" then s!" ts={m'.core.ts.size} tg={m'.core.tg.size}" else ""))
   | .geo interm lvs goal m =>
     match ts with
     | "goal" :: thr :: rest =>
